@@ -289,3 +289,35 @@ func geomVerdict(a, b outcome) string {
 	}
 	return verdict
 }
+
+// structVerdict compares the first (geometry) components of two outcomes STRUCTURALLY: ExactEquals
+// with IgnoreOrder only (no stripping, no point-set fallback), and the same error status. Used where
+// the neutral answer table names a value ("the self-union of the other operand").
+func structVerdict(a, b outcome) (res string) {
+	defer func() {
+		if r := recover(); r != nil {
+			res = "ne:panic-in-comparison:" + esc(fmt.Sprint(r))
+		}
+	}()
+	if a.panicked || b.panicked || len(a.vals) == 0 || len(b.vals) == 0 {
+		return "-"
+	}
+	ga, ok1 := asGeometry(a.vals[0])
+	gb, ok2 := asGeometry(b.vals[0])
+	if !ok1 || !ok2 {
+		return "-"
+	}
+	if len(a.vals) > 1 && len(b.vals) > 1 && render(a.vals[1]) != render(b.vals[1]) {
+		return "ne:error-status"
+	}
+	if !finiteNode(lib.NodeOf(ga)) || !finiteNode(lib.NodeOf(gb)) {
+		if lib.Dump(ga) == lib.Dump(gb) {
+			return "eq"
+		}
+		return "ne:non-finite"
+	}
+	if geom.ExactEquals(ga, gb, geom.IgnoreOrder) {
+		return "eq"
+	}
+	return "ne:structure " + esc(ga.AsText()) + " <> " + esc(gb.AsText())
+}
